@@ -320,3 +320,15 @@ Theorem C06_tie_meets : forall a0 a1 b0 b1, meets a0 a1 b0 b1 = region_overlap (
 Proof. exact meets_tied. Qed.
 Goal True. idtac "ASSUME C06_tie_meets". Abort.
 Print Assumptions C06_tie_meets.
+
+(* common.chr_prefix: the contig name the loader looks for (prefix + chr) is a contig of the header whenever the header has the
+   gene's contig under either spelling; the bare name is preferred *)
+Theorem C06_chr_prefix_names_a_contig : forall ch chrs, In ch chrs \/ In (CHR ++ ch) chrs -> In (chr_prefix ch chrs ++ ch) chrs.
+Proof. exact chr_prefix_names_a_contig. Qed.
+Goal True. idtac "ASSUME C06_chr_prefix_names_a_contig". Abort.
+Print Assumptions C06_chr_prefix_names_a_contig.
+
+Theorem C06_chr_prefix_prefers_bare : forall ch chrs, In ch chrs -> chr_prefix ch chrs = nil.
+Proof. exact chr_prefix_prefers_bare. Qed.
+Goal True. idtac "ASSUME C06_chr_prefix_prefers_bare". Abort.
+Print Assumptions C06_chr_prefix_prefers_bare.
